@@ -199,7 +199,7 @@ func runC05(env *Env, tier string) {
 			refuseUntil = time.Time{}
 			env.Note("reconnects accepted again")
 		}
-		switch ch.Weighted("step", []int{10, 8, 4, 2, 2, 2}) {
+		switch ch.Weighted("step", []int{20, 16, 8, 4, 4, 4, 3}) {
 		case 0: // sends
 			s := []*c05Side{I, A}[ch.Choose("sender", 2)]
 			for k := 1 + ch.Choose("burst", 4); k > 0; k-- {
@@ -302,6 +302,36 @@ func runC05(env *Env, tier string) {
 			env.Note("engine %s crashed (power loss=%v) and restarted on its store", s.name, power)
 			// the new session loop only starts serving at the next whole second: nothing is delivered
 			// to it before, or several events would be waiting for it at once (R1)
+			env.Advance(1100 * time.Millisecond)
+		case 6: // orderly stop (the engine logs out) and recreation on the persistent store
+			if store != "file" {
+				continue
+			}
+			s := []*c05Side{I, A}[ch.Choose("stopside", 2)]
+			if inFlightOrQueued() {
+				faultsWithTraffic++
+			}
+			old := s.eng
+			old.StopAsync()
+			env.Settle()
+			// what is in flight keeps arriving while the engine logs out
+			for k := 0; k < 100 && !old.StopFinished(); k++ {
+				adv(200 * time.Millisecond)
+			}
+			if !old.StopFinished() {
+				env.EngineStuck("an engine did not stop within 20 simulated seconds of Stop()")
+			}
+			old.Dead = true
+			for _, l := range w.Links {
+				if !l.IsCut {
+					cut(l, 0, 0, nil)
+				}
+			}
+			env.Settle()
+			s.restarts++
+			start(s)
+			env.Note("engine %s stopped in an orderly way and was recreated on its store", s.name)
+			env.Stat("fault_orderly_stop_and_restart")
 			env.Advance(1100 * time.Millisecond)
 		}
 		checkOrder()
